@@ -126,6 +126,41 @@ ImplSanIntoMove(b, d, EpFix) ==
                           /\ (d.rankHint # -1 => RankOf(m[3]) = d.rankHint)})
 
 (***************************************************************************)
+(* uci::Move::into_move (the "basic" UCI reader): the kind is guessed from *)
+(* the board - promotion suffix, double step by ranks, e.p. as "a pawn     *)
+(* changing file onto an empty square", castling as "the king going from   *)
+(* its home to the g-/c-file square" - then Move::new checks well-         *)
+(* formedness; the semilegal and legal readers add the validators.         *)
+(***************************************************************************)
+ImplUciIntoMove(b, src, dst, promo) ==
+  LET color == b.r.side  sc == b.r.cells[src] IN
+  IF ColorOf(sc) # color THEN SErr("NotWellFormed")
+  ELSE LET pc == PieceOf(sc)
+           kind == IF promo # 0 THEN promo
+                   ELSE IF pc = P THEN
+                          (IF RankOf(src) = PawnStartRank(color) /\ RankOf(dst) = DoubleDstRank(color) THEN KDouble
+                           ELSE IF FileOf(src) # FileOf(dst) /\ b.r.cells[dst] = 0 THEN KEnpassant
+                           ELSE KSimple)
+                   ELSE IF pc = K /\ src = KingHome(color) /\ dst = MkSq(6, HomeRank(color)) THEN KCastleK
+                   ELSE IF pc = K /\ src = KingHome(color) /\ dst = MkSq(2, HomeRank(color)) THEN KCastleQ
+                   ELSE KSimple
+           m == <<kind, sc, src, dst>>
+       IN IF src # dst /\ WellFormed(m) THEN SOk(m) ELSE SErr("NotWellFormed")
+
+\* C10 at the design level: over every (source, destination, promotion) triple
+Obl_Uci(b, EpFix) ==
+  LET PL == PseudoLegal(b.r)  LS == Legal(b.r) IN
+  \A src \in Sq : \A dst \in Sq : \A promo \in {0} \cup PromoKinds :
+    LET r == ImplUciIntoMove(b, src, dst, promo)
+        semi == r.ok /\ ImplSemiValidate(b, r.m, {})
+        legal == semi /\ ImplIsLegal(b, r.m, "nil", EpFix)
+        u == [src |-> src, dst |-> dst, promo |-> promo]
+    IN /\ r.ok => (Triple(r.m) = <<src, dst, promo>> /\ r.m[2] = b.r.cells[src])
+       /\ semi <=> (WithTriple(PL, u) # {})
+       /\ semi => WithTriple(PL, u) = {r.m}
+       /\ legal <=> (WithTriple(LS, u) # {})
+
+(***************************************************************************)
 (* Obligations (C09 at the design level).                                  *)
 (***************************************************************************)
 \* writing: the text of every legal move is the standard one
